@@ -222,6 +222,21 @@ class PhaseA:
                 for k, lst in d1.items():
                     self.dicts.setdefault(k, [])
                     self.dicts[k] = self.dicts[k] + [x for x in lst if x not in self.dicts[k]]
+        elif isinstance(s, ast.For) and isinstance(s.target, ast.Name) and isinstance(s.iter, (ast.Tuple, ast.List)) and s.iter.elts \
+                and all(isinstance(e_, ast.Name) and e_.id in self.state for e_ in s.iter.elts) and not s.orelse:
+            # `for x in (a, b): x.phase_sync(inplace=True)`: a loop over a literal tuple of tracked arrays is its unrolling
+            import copy
+
+            class _Sub(ast.NodeTransformer):
+                def __init__(self, old, new):
+                    self.old, self.new = old, new
+
+                def visit_Name(self, n):
+                    return ast.copy_location(ast.Name(id=self.new, ctx=n.ctx), n) if n.id == self.old else n
+
+            for e_ in s.iter.elts:
+                body = [ast.fix_missing_locations(_Sub(s.target.id, e_.id).visit(copy.deepcopy(b_))) for b_ in s.body]
+                self.block(body)
         elif isinstance(s, (ast.For,)):
             self.bind_iter(s.target, s.iter, s)
             for _ in range(2):
